@@ -190,6 +190,27 @@ def run(ctx):
         if missing:
             ctx.violation("correspondence-coverage", "", "model branches never exercised by the generated cases: "
                           + ", ".join(missing), no_input=True)
+        # the variant of the tree under test is PROBED by the driver (the model follows it so that L1 stays exact); a
+        # finding recorded as fixed must be probed as repaired, and a probe that matches no known variant is a failure
+        status = {f.get("id"): f.get("status") for f in ctx.findings}
+        for fid, key, want in (("F4", "variant_f4_fixed", 1), ("F4b-legacy-overwrite", "variant_legacy_mode", 2),
+                               ("F4c-cut-else-panic", "variant_cut_else_fixed", 1)):
+            if status.get(fid) == "fixed" and st.get(key) != want:
+                ctx.violation("fixed-finding-regressed", "", f"finding {fid} is recorded as fixed but the tree under test is "
+                              f"probed as {key}={st.get(key)} (repaired = {want}); see the probes in c19NewEnv", no_input=True)
+        if status.get("F5-literal-image-tag") == "fixed" and st.get("variant_f5_literal_tag_fixed") != 1:
+            ctx.violation("fixed-finding-regressed", "", "finding F5-literal-image-tag is recorded as fixed but the tree under "
+                          "test passes a typed `[img-N]` through", no_input=True)
+        if st.get("variant_probe_unexpected", 0) > 0:
+            ctx.violation("variant-probe-unexpected", "", f"{st.get('variant_probe_unexpected')} variant probe(s) of c19NewEnv "
+                          "matched neither the pinned nor the repaired behaviour", no_input=True)
+        # share of cases whose template is outside the executed subset (prompt string / costs / tokenizer inputs not
+        # compared by L1 there)
+        opaque, executed = st.get("template_opaque_to_model", 0), st.get("template_executed_by_model", 0)
+        ctx.coverage["template_opaque_share_percent"] = round(100.0 * opaque / max(1, opaque + executed), 1)
+        if opaque * 4 > opaque + executed:
+            ctx.violation("correspondence-coverage", "", f"{opaque} of {opaque + executed} generated cases use a template "
+                          "outside the executed subset (ceiling 25 %)", no_input=True)
 
     # handler level: POST /api/chat through the real CreateHandler + ChatHandler with a mock runner
     if not ctx.replay or "hchat " in open(env["VERIF_REPLAY"]).read() or "ochat " in open(env["VERIF_REPLAY"]).read():
@@ -203,6 +224,13 @@ def run(ctx):
         ctx.coverage["handler_level_cases"] = st.get("cases", 0)
         ctx.l1(houtdir, label="L1-handler")
         ctx.classify(ctx.l2(houtdir))
+        if not ctx.replay:
+            need = ["handler_ok", "handler_via_openai_entry", "handler_openai_message_with_parts", "handler_l2_limit_truncating",
+                    "handler_latest_has_images", "handler_model_has_system", "handler_model_has_messages"]
+            miss = [k for k in need if st.get(k, 0) == 0]
+            if st.get("cases", 0) == 0 or miss:
+                ctx.violation("correspondence-coverage", "", f"handler level: {st.get('cases', 0)} cases; never exercised: "
+                              + ", ".join(miss), no_input=True)
 
     # runner side: the REAL ollamarunner `inputs` on the (prompt, images) pairs the real chatPrompt just
     # produced, plus generated adversarial pairs
@@ -217,6 +245,12 @@ def run(ctx):
         ctx.coverage["runner_side_cases"] = st.get("cases", 0)
         ctx.l1(routdir, label="L1-runner")
         ctx.classify(ctx.l2(routdir))
+        if not ctx.replay:
+            need = ["pairs_from_real_chatPrompt", "ok_with_images_consumed", "outcome_err", "l2_literal_tag_in_text_evaluated"]
+            miss = [k for k in need if st.get(k, 0) == 0]
+            if st.get("cases", 0) == 0 or miss:
+                ctx.violation("correspondence-coverage", "", f"runner level: {st.get('cases', 0)} cases; never exercised: "
+                              + ", ".join(miss), no_input=True)
     ctx.assumptions += [
         "templates inside the executed subset are run by the model on the tree the real Parse built; other templates "
         "enter as the cost vector measured on the real code",
